@@ -39,6 +39,7 @@ from modelx.core.parent import (
     EditableParent,
 )
 from modelx.core.space import (
+    BaseSpaceImpl,
     UserSpaceImpl,
     SpaceDict,
     SpaceView,
@@ -1336,6 +1337,20 @@ class SharedSpaceOperations:
                 self._graph.ordered_subs(space.idstr))[idx:]
         ]
 
+    def _get_counterpart(self, name, target):
+        """The object named ``name``, if it is of the kind of ``target``
+
+        A member of another kind under the name that the counterpart
+        of ``target`` would have is not its counterpart.
+        """
+        impl = self.model.get_impl_from_name(name)
+        if impl is None:
+            return None
+        for kind in (BaseSpaceImpl, CellsImpl):
+            if isinstance(target, kind):
+                return impl if isinstance(impl, kind) else None
+        return impl
+
     def get_relative_interface(self, parent, base):
 
         if base.interface._impl.model is not self.model:
@@ -1349,7 +1364,7 @@ class SharedSpaceOperations:
             parent.idstr, basespace, basevalue)
 
         if subimpl:
-            impl = self.model.get_impl_from_name(subimpl)
+            impl = self._get_counterpart(subimpl, base.interface._impl)
             if impl:
                 return True, impl.interface
             else:
@@ -1610,7 +1625,8 @@ class SpaceManager(SharedSpaceOperations):
                         subspace.idstr, space.idstr,
                         basevalue)
                 if (not subvalue
-                        or self.model.get_impl_from_name(subvalue) is None):
+                        or self._get_counterpart(
+                            subvalue, value._impl) is None):
                     raise ValueError(
                         "Cannot create relative reference for '%s' in '%s'"
                         % (basevalue, subspace.idstr)
@@ -1643,7 +1659,8 @@ class SpaceManager(SharedSpaceOperations):
                         subvalue = self._graph.get_relative(
                             sub.idstr, b.idstr, ref.interface._impl.idstr)
                     if (not subvalue or
-                            self.model.get_impl_from_name(subvalue) is None):
+                            self._get_counterpart(
+                                subvalue, ref.interface._impl) is None):
                         raise ValueError(
                             "Relative reference %s.%s out of scope" %
                             (sub.get_fullname(), name))
@@ -1966,16 +1983,20 @@ class SpaceUpdater(SharedSpaceOperations):
                 if ref.interface._impl.model is self.model:
                     subvalue = self._graph.get_relative(
                         node, sname, ref.interface._impl.idstr)
-                if not subvalue or not self._will_exist(subvalue):
+                if not subvalue or not self._will_exist(
+                        subvalue, ref.interface._impl):
                     raise ValueError(
                         "Relative reference %s.%s out of scope" %
                         (self._graph.to_space(node).get_fullname(), name)
                     )
 
-    def _will_exist(self, name):
-        """True if ``name`` is an object or a cells yet to be derived"""
-        if self.model.get_impl_from_name(name) is not None:
+    def _will_exist(self, name, target):
+        """True if ``name`` is the counterpart of ``target``,
+        or a cells yet to be derived"""
+        if self.manager._get_counterpart(name, target) is not None:
             return True
+        if not isinstance(target, CellsImpl):
+            return False
         parent, _, last = name.rpartition(".")
         if parent in self._graph:
             for b in self._graph.get_mro(parent):
